@@ -1,4 +1,5 @@
 import Ypv.Lemmas.MergeAt
+import Ypv.Props.C09
 /-!
 # C11 — a merge aimed at a path changes only what lies under that path
 
@@ -89,6 +90,77 @@ theorem mergeat_target_is_c05_merge_partial (cfg : Config) (isRoot : Bool) (l r 
     (hl : isNull l = false) (hr : isNull r = false) (hs : Retyped isRoot l r = false) :
     mergeTarget (prepare cfg r) isRoot l r = c05 cfg l r :=
   mergeTarget_eq_c05 cfg isRoot l r hl hr hs
+
+/-- **The per-target dispatch, in full (no exclusion).**  For all non-null `l`, `r`: the value that
+replaces the target is the C05 root merge of the target's old content with the right-hand document —
+except when a Scalar lands on a Scalar target that is not the document root, where it is what
+`set_value` stores: the target's own anchor kept, the value re-made in the DEFAULT format
+(`setScalar la v = (newScalar la.isSome v .default).map (.scalar la ·)`). -/
+theorem mergeat_target_is_c05_merge (cfg : Config) (isRoot : Bool) (l r : Node)
+    (hl : isNull l = false) (hr : isNull r = false) :
+    mergeTarget (prepare cfg r) isRoot l r =
+      match l, r with
+      | .scalar la _, .scalar _ v => if isRoot then c05 cfg l r else setScalar la v
+      | _, _ => c05 cfg l r := by
+  cases l with
+  | scalar la lv =>
+    cases r with
+    | scalar ra v =>
+      cases isRoot with
+      | true => exact mergeTarget_eq_c05 cfg true _ _ hl hr (by simp [Retyped])
+      | false => simp [mergeTarget]
+    | seq ra ri => exact mergeTarget_eq_c05 cfg isRoot _ _ hl hr rfl
+    | map ra re => exact mergeTarget_eq_c05 cfg isRoot _ _ hl hr rfl
+    | set ra rm => exact mergeTarget_eq_c05 cfg isRoot _ _ hl hr rfl
+  | seq la li => exact mergeTarget_eq_c05 cfg isRoot _ _ hl hr (by cases r <;> rfl)
+  | map la le => exact mergeTarget_eq_c05 cfg isRoot _ _ hl hr (by cases r <;> rfl)
+  | set la lm => exact mergeTarget_eq_c05 cfg isRoot _ _ hl hr (by cases r <;> rfl)
+
+/-- **Exactly which values `set_value` does not store as they are** (the DEFAULT format of
+`make_new_node`): Booleans, integers and floats are kept; a text `s` is kept iff it does not read as
+a Boolean, an integer or a float (`eTypedValue s = .str`, or `= .none` — the text `None` — on an
+unanchored target); every other text is re-typed (`true` → Boolean, `5` → int, `1.5` → float), and
+texts outside the value model are refused. -/
+theorem set_value_keeps_iff (anchored : Bool) (v : Scalar) :
+    newScalar anchored v .default = .ok v ↔
+      match v with
+      | .null => anchored = false
+      | .opaque _ => False
+      | .str s => eTypedValue s = .str ∨ (eTypedValue s = .none ∧ anchored = false)
+      | _ => True := by
+  cases v with
+  | null => cases anchored <;> simp [newScalar]
+  | bool b => simp [newScalar]
+  | int i => simp [newScalar]
+  | float m e => simp [newScalar]
+  | «opaque» o => simp [newScalar]
+  | str s =>
+    simp only [newScalar]
+    cases ht : eTypedValue s with
+    | bool b =>
+      simp only [fmtBoolean]
+      cases pyStrVal (.str s) with
+      | none => simp
+      | some t => simp only; split <;> simp
+    | int i => simp [fmtInt, ht]
+    | float m e => simp [fmtFloat, ht]
+    | none => cases anchored <;> simp
+    | str => simp
+    | unmodelled => simp
+
+/-- **The finding class, spelled out**: a Scalar right-hand document `v` aimed at a Scalar target below
+the root comes out different from the C05 merge exactly when the target carries another anchor than the
+right-hand Scalar or `v` is a text that reads as a Boolean / integer / float (or is refused). -/
+theorem retyped_iff (la ra : Option Str) (lv v : Scalar) :
+    Retyped false (.scalar la lv) (.scalar ra v) = true ↔
+      la ≠ ra ∨ ¬ (match v with
+        | .null => la.isSome = false
+        | .opaque _ => False
+        | .str s => eTypedValue s = .str ∨ (eTypedValue s = .none ∧ la.isSome = false)
+        | _ => True) := by
+  rw [← set_value_keeps_iff la.isSome v]
+  simp only [Retyped, Bool.not_false, Bool.true_and, Bool.not_eq_true', Bool.and_eq_false_iff,
+    decide_eq_false_iff_not, ne_eq]
 
 /-- C11 for existing targets, in one statement: targets pairwise apart, none of them null or in
 the finding class ⇒ the result meets `Meets` (every target holds the C05 merge of its old content,
@@ -252,6 +324,19 @@ theorem mergeat_creation_is_c09 (s : Scalar) (segs : List PSeg) (n : Node) :
     (createPathN (.scalar none s) n segs).map CreatedN.toCreated = n.createPath s segs :=
   createPathN_scalar s segs n
 
+/-- **The exact set of new addresses after creation** (Scalar right-hand document, straight path):
+the creation used by `--mergeat` is C09's, so C09's complete `create_exact` applies — the path was
+present (nothing changed), or a `null` on the way was relayed (nothing changed), or the prefix resolves
+to a node `n` at `q`, the next segment is missing there, and the new document is the old one with
+EXACTLY the node at `q` replaced by `createHere n seg rest` (new addresses: those below
+`q ++ [createdRef n seg]`, nothing else). -/
+theorem mergeat_creation_exact (s : Scalar) (l : Node) (segs : List PSeg) (c : CreatedN)
+    (hc : createPathN (.scalar none s) l segs = .ok c) :
+    CreateOutcome s l segs c.toCreated := by
+  apply Ypv.C09.create_exact s l segs
+  rw [← mergeat_creation_is_c09, hc]
+  rfl
+
 /-- RULES RE-BASED.  A `[rules]` / `[keys]` path written against the merged document below the
 merge path (`mergePath ++ p`, plain key names) addresses the node `p` of the right-hand document. -/
 theorem mergeat_rules_rebased {α : Type} (m p : List Str) (x : α) (hm : m ≠ [])
@@ -305,5 +390,16 @@ example : stripPrefix ["a".toList, "bc".toList, "x".toList] ["a".toList, "b".toL
 
 /-- The hypotheses of `mergeat_meets_spec_partial` are met by a non-trivial case. -/
 example : Retyped false (.seq none [i 1]) (.seq none [i 3]) = false := by decide +kernel
+
+/-- `set_value_keeps_iff` on concrete texts: `5`, `true`, `1.5` are re-typed, `abc` is kept -/
+example : newScalar false (.str "5".toList) .default = .ok (.int 5) ∧
+    newScalar false (.str "true".toList) .default = .ok (.bool true) ∧
+    eTypedValue "abc".toList = .str ∧ newScalar false (.str "abc".toList) .default = .ok (.str "abc".toList) := by
+  decide +kernel
+/-- `mergeat_creation_exact` is not vacuous: `a: [1]` ⊕ `9` at `a[2]` creates below `a` -/
+example : (createPathN (.scalar none (.int 9)) (.map none [(.str ['a'], .seq none [.scalar none (.int 1)])])
+    [.key ['a'], .index 2]).map (fun c => (c.doc, c.addr)) =
+    .ok (.map none [(.str ['a'], .seq none [.scalar none (.int 1), .scalar none (.int 9), .scalar none (.int 9)])],
+         [.key (.str ['a']), .idx 2]) := by decide +kernel
 
 end Ypv.MergeAt
